@@ -626,5 +626,55 @@ def oracle(run, corr, deep, parts=PARTS):
                          "request": r[:400], "impl": a[:300], "demanded": dem})
                 break
         corr.distribution["oracle: toolkit-form replies"] = len(cases)
+        # a reply to ANOTHER command (verb differs, here in its last letter / by one more letter)
+        # is not taken for the pending one
+        cases = []
+        for t, crit in pool:
+            verb, _, args = t[4:].partition(" ")
+            for other in (verb[:-1] + ("X" if verb[-1] != "X" else "Y"), verb + "X"):
+                rsp = ("RSP %s 0%s" % (other, " " + args if args else "")).encode() + b"\0"
+                if len(rsp) <= 1023:
+                    cases.append((t, crit, "tc.rsp %s %d %s" % (hx(t), crit, hx(rsp))))
+        out = vf.run_lines([exe], [c[2] for c in cases])
+        for (t, crit, r), a in zip(cases, out):
+            f = [x.strip() for x in a.split("|")]
+            if a == "CRASH" or f[1] == "accepted":
+                witness({"kind": "trxcon-rsp-mismatch", "prop": "C05", "command": t[:200], "request": r[:400], "impl": a[:300],
+                         "demanded": "a response to another command is not accepted for the pending one"})
+                break
+        corr.distribution["oracle: replies to another verb"] = len(cases)
         robust("trxcon-rsp", gen_rsp(rng, n))
     return found
+
+
+def replay(run, w):
+    """re-run one witness dict reported by `oracle` against the real code of vf.REPO;
+    returns (still_failing, text)"""
+    exe = build(run)
+    kind = w.get("kind", "")
+    req = w.get("request")
+    if not req or not req.startswith("tc."):
+        return True, "witness %s carries no complete request line" % kind
+    a = vf.run_lines([exe], [req])[0]
+    if kind in ("trxcon-rx-decode", "trxcon-tx-layout"):
+        return True, "%s: request was shortened in the evidence; re-run ./check for a fresh witness (impl now: %s)" % (kind, a[:120])
+    if kind.endswith("-crash"):
+        return a == "CRASH", "%s -> %s (demanded: the callback returns)" % (req[:200], a[:200])
+    if kind.endswith("-uninit"):
+        m = build_msan(run)
+        b = vf.run_lines([m], [req])[0] if m else a
+        return a != b, "%s -> ASan/UBSan build: %s ; MSan build: %s (demanded: identical, no use of uninitialised values)" % (req[:200], a[:160], b[:160])
+    f = [x.strip() for x in a.split("|")] if a != "CRASH" else ["CRASH"] * 6
+    if kind == "trxcon-rsp-mismatch":
+        return a == "CRASH" or f[1] == "accepted", "%s -> %s (demanded: %s)" % (req[:200], a[:200], w.get("demanded"))
+    if kind == "trxcon-rsp-accept":
+        st, crit = w.get("status"), w.get("critical")
+        ok = (f[0] == "0" and f[1] == "accepted") if (st == 0 or not crit) else (f[0] == "-5" and f[1] == "rejected")
+        return not ok, "%s -> %s (demanded: %s)" % (req[:200], a[:200], w.get("demanded"))
+    if kind == "trxcon-cmd-form":
+        dem = w.get("demanded")
+        rc, q, sent = _parse_cmd_answer(a) if a != "CRASH" else (None, [], [])
+        texts = [x.decode("latin-1") for x in q]
+        ok = rc == 0 and texts and all(CMD_RE.match(t) for t in texts) and sent == [q[0] + b"\0"] and (not isinstance(dem, list) or texts == dem)
+        return not ok, "%s -> %s (demanded: %s)" % (req[:200], a[:300], dem)
+    return True, "%s -> %s" % (req[:200], a[:200])
